@@ -342,6 +342,11 @@ def run_for(prop, tier, only=None):
                 res["undecided"].append({"function": "(canary)", "why": "BROKEN: Verus accepted a deliberately false postcondition"})
         else:
             res["canary"] = {"what": "skipped: remove_index_read contract marker not present"}
+    # ---- mechanical scan of the generated text for anything that is assumed rather than proved
+    scan = {"assume(": len(re.findall(r"\bassume\s*\(", text)), "admit(": len(re.findall(r"\badmit\s*\(", text)),
+            "external_body": re.findall(r"#\[verifier::external_body\]\s*\n\s*(?:pub(?:\(crate\))? )?(?:unsafe )?fn (\w+)", text),
+            "assume_specification": re.findall(r"assume_specification<[^>]*>\[\s*([\w:]+)", text)}
+    res["assumption_scan"] = scan
     res["assumptions"] = [
         "Verus: the contracts of the six slot accessors (item_ref, item_mut, value_mut, item_read, item_drop, item_write) are external_body - assumed here, discharged by Kani contract proofs at N<=4 (core_contracts)",
         "Verus: core::mem::drop is given an assumed specification (no effect on the caller's state)",
